@@ -285,7 +285,9 @@ def by_kind(recipes, keep, rng):
 def run(ctx, replay=None):
     ctx.build_lib()
     exe = ctx.cc("hwv_xmlload.c", "hwv_xmlload")
-    env_base = {"HWV_WATCHDOG": "10", "HWV_LEAKCHECK": "1"}
+    # an allocation of more than 2 GiB fails (as it does on an ordinary machine) instead of being served by the sanitizer's allocator out of
+    # overcommitted memory: a document that declares 4294967295 objects made one load take 10 s of page zeroing, i.e. a "Hang" under load
+    env_base = {"HWV_WATCHDOG": "20", "HWV_LEAKCHECK": "1", "ASAN_OPTIONS": "max_allocation_size_mb=2048:allocator_may_return_null=1"}
 
     def mk_replay(imp):
         def replay_fn(text):
